@@ -1,10 +1,17 @@
 use pyo3::prelude::*;
 
 #[pyfunction]
-fn bzr_url_to_git_url(location: &str) -> PyResult<(String, Option<String>, Option<String>)> {
-    let (url, revno, branch) = breezy_git::bzr_url_to_git_url(location)
+fn bzr_url_to_git_url<'py>(
+    py: Python<'py>,
+    location: &str,
+) -> PyResult<(String, Option<String>, Option<Bound<'py, pyo3::types::PyBytes>>)> {
+    let (url, branch, ref_) = breezy_git::bzr_url_to_git_url(location)
         .map_err(|_e| PyErr::new::<pyo3::exceptions::PyValueError, _>(("Invalid URL",)))?;
-    Ok((url, revno, branch))
+    Ok((
+        url,
+        branch,
+        ref_.map(|r| pyo3::types::PyBytes::new(py, r.as_slice())),
+    ))
 }
 
 #[pyfunction]
